@@ -174,6 +174,10 @@ def run_check(prop: str, tier: str, seed: int) -> int:
             last = res["paths"][-1]
             fn = write_replay(prop, res, last)
             rc, out = native_replay(fn)
+            if rc == 1 and hasattr(mod, "confirm_native"):
+                with open(fn) as fh:
+                    if not mod.confirm_native(json.load(fh)):
+                        rc, out = 0, out + "\n(second-stage native confirmation did not reproduce)"
             if rc == 1:
                 recs = [r for r in last.get("native_records", last["records"]) if not is_listed(r, known)]
                 violations.append((fn, recs, res))
